@@ -50,4 +50,41 @@ def heartbeatPeriod (idle : Nat) : Option Nat :=
 def beats (period horizon : Nat) : List Nat :=
   (List.range (horizon / period + 1)).map (· * period)
 
+/-! ## the endpoint's own idle deadline (`Transport::poll_next`) -/
+
+inductive Poll where
+  | frame | timeout | pending
+deriving Repr, DecidableEq
+
+/-- source facts: the codec is polled before the deadline is looked at, and reading a frame re-arms it -/
+def inputFirst : Bool :=
+  decide (poll_next_order.idx_framed_read___poll_next < poll_next_order.idx_delay___poll___cx__) &&
+  decide (poll_next_order.idx_delay___reset < 1000)
+
+/-- one poll, given whether input is waiting and whether the deadline has passed -/
+def poll (inputFirst inputPending deadlinePassed : Bool) : Poll :=
+  if inputFirst then (if inputPending then .frame else if deadlinePassed then .timeout else .pending)
+  else (if deadlinePassed then .timeout else if inputPending then .frame else .pending)
+
+/-- frames waiting to be read, and the instant at which the deadline falls -/
+structure Reader where
+  waiting : Nat
+  deadline : Nat
+deriving Repr
+
+inductive REv where
+  /-- a frame arrives from the peer -/
+  | arrive
+  /-- the engine polls its input at `now` -/
+  | pollAt (now : Nat)
+deriving Repr
+
+def rstep (ifirst : Bool) (T : Nat) (r : Reader) : REv → Reader × Option Poll
+  | .arrive => ({ r with waiting := r.waiting + 1 }, none)
+  | .pollAt now =>
+    match poll ifirst (decide (0 < r.waiting)) (decide (r.deadline ≤ now)) with
+    | .frame => ({ waiting := r.waiting - 1, deadline := now + T }, some .frame)
+    | .timeout => (r, some .timeout)
+    | .pending => (r, some .pending)
+
 end Amqp.Limits
